@@ -5,42 +5,48 @@
 // part 1 are executed by a real blockchain.BlockChain on a real ffldb whose block
 // files go through a recording layer (installed through
 // database/ffldb/verif_c05_export.go, the seam file of the C05 check; the
-// recorder and the crash-image materialiser are adapted from checks/c05/fsim.go
+// recorder and the crash-image materialiser are ported from checks/c05/fsim.go
 // and checks/c05/crash.go).  The log holds
 //
 //	OpenWrite / WriteAt(file,off,bytes) / Sync(file) / Truncate / Close / Delete
 //
-// events plus LDB(m) markers: "leveldb now durably holds the first m db.Update
-// commits of the run".  ffldb keeps committed transactions in its own dbCache and
-// writes them to leveldb only when it flushes, so what is durable in leveldb is
-// what ffldb has flushed, not what the chain has committed.  The flush timing of
-// the real ffldb is time/size driven, i.e. arbitrary; here it is taken over with
-// VerifSetFlushPolicy per commit: regime "every" flushes on every commit, regime
-// "never" only on Close, regime "pS+R" exactly on the commits c with c mod S == R
-// (all phases R are run, so every commit is a flush point in some recording and
-// the metadata lags the chain by up to S-1 commits).  A flushing commit c syncs
-// the current block file, writes the cached commits (< c) to leveldb — marker
-// LDB(c-1) — and then its own — marker LDB(c).  The markers are appended by the
-// database wrapper right after the Update returns; ffldb performs no block-file
-// I/O between its leveldb commit and that point.
+// events, StepEnd(c[,flushed]) events written by the database wrapper when the
+// c-th db.Update (or the final Close) has returned ("flushed": the call promised
+// durability of everything committed so far), and LDB#k markers.
+//
+// LDB#k markers are OBSERVED, not inferred: before any event is appended the
+// recorder looks at the leveldb directory of the database under test; if its
+// logical content changed since the last look, a verified point-in-time copy of
+// the directory (opened with goleveldb read-only, every key/value hashed) becomes
+// "metadata state #k" and the marker is placed BEFORE the current event.
+// Everything runs in one goroutine, so a marker is ordered exactly with respect
+// to the block-file events around it (sync-before-commit, delete-before/after-
+// commit ...).  Physical-only changes (compaction, journal rotation) leave no
+// marker.  Two leveldb commits with no event between them are seen as one change.
+//
+// ffldb keeps committed transactions in its own dbCache and writes them to
+// leveldb only when it flushes; the flush timing of the real ffldb is time/size
+// driven, i.e. arbitrary.  Here it is taken over with VerifSetFlushPolicy per
+// commit: regime "every" flushes on every commit, regime "never" only on Close,
+// regime "pS+R" exactly on the commits c with c mod S == R (all phases R are
+// run, so every commit is a flush point in some recording and the metadata lags
+// the chain by up to S-1 commits).
 //
 // For EVERY prefix of every log and EVERY subset of the writes not covered by a
 // later Sync of the same file inside the prefix being lost (the newest `cap`
 // unsynced writes are varied exhaustively, older ones are kept, plus the
 // all-lost image), and additionally the last write torn at half length, the
-// block-file directory is materialised; the leveldb directory of the image is the
-// state after the newest LDB(m) of the prefix, obtained by re-running the
-// deterministic workload on a scratch instance up to commit m and closing it
-// cleanly.  Identical images (same m, same file contents) are opened once per
-// configuration.
+// block-file directory is materialised and the copy of metadata state #k (k =
+// last marker inside the prefix) is put next to it.  Identical images (same
+// logical leveldb content, same file contents) are opened once per configuration.
 //
 // Oracle per image: database.Open (ffldb's reconcileDB) succeeds, blockchain.New
 // succeeds, and then exactly part 1's oracle: the tip is one the node had made
 // active before that point of the run, the full UTXO universe equals lab.Fold of
-// the tip's chain, TotalTxns matches, every block acknowledged before the last
-// durable commit is known, every main-chain block is readable (unless pruning is
-// on), and after feeding the whole workload again the node converges to the
-// uninterrupted run's final tip and UTXO set.
+// the tip's chain, TotalTxns matches, every block acknowledged before the newest
+// commit that had been promised durable is known, every main-chain block is
+// readable (unless pruning is on), and after feeding the whole workload again the
+// node converges to the uninterrupted run's final tip and UTXO set.
 package main
 
 import (
@@ -62,6 +68,8 @@ import (
 	"github.com/btcsuite/btcd/chainhash/v2"
 	"github.com/btcsuite/btcd/database"
 	"github.com/btcsuite/btcd/database/ffldb"
+	"github.com/syndtr/goleveldb/leveldb"
+	"github.com/syndtr/goleveldb/leveldb/opt"
 
 	"verif/engine/ev"
 	"verif/lab"
@@ -579,7 +587,9 @@ type pendingWrite struct {
 type diskState struct {
 	files            map[uint32][]byte // durable content
 	pending          []pendingWrite    // unsynced writes in log order
-	m                int               // newest LDB marker (0: only database.Create)
+	m                int               // newest observed metadata state inside the prefix (LDB#m; -1: none)
+	mUpto            int               // db.Update calls that had been started when LDB#m was observed: the state holds commits <= mUpto
+	jmin             int               // newest StepEnd(j,flushed) inside the prefix: commits <= jmin had been promised durable
 	done             int               // db.Update calls completed at the crash point
 	lastIsWrite      bool
 	deletedAfterMark bool // a Delete happened after the newest LDB marker in the prefix
@@ -599,7 +609,7 @@ func applyWrite(buf []byte, off int64, data []byte) []byte {
 // stateAt replays the first p events.  Directory operations (create, delete) and
 // Truncate are durable at once; file data only through Sync.
 func stateAt(log []fsEvent, p int) *diskState {
-	ds := &diskState{files: map[uint32][]byte{}}
+	ds := &diskState{files: map[uint32][]byte{}, m: -1}
 	for i := 0; i < p; i++ {
 		e := log[i]
 		ds.lastIsWrite = false
@@ -655,9 +665,13 @@ func stateAt(log []fsEvent, p int) *diskState {
 			ds.deletedAfterMark = true
 		case evMark:
 			if e.N > ds.m {
-				ds.m = e.N
+				ds.m, ds.mUpto = e.N, e.Upto
 			}
 			ds.deletedAfterMark = false
+		case evStep:
+			if e.Off == 1 && e.N > ds.jmin {
+				ds.jmin = e.N
+			}
 		}
 	}
 	return ds
@@ -689,9 +703,9 @@ func (ds *diskState) image(drop map[int]bool, tornLast bool) map[uint32][]byte {
 	return out
 }
 
-func imageHash(m int, files map[uint32][]byte) [32]byte {
+func imageHash(meta [32]byte, files map[uint32][]byte) [32]byte {
 	h := sha256.New()
-	fmt.Fprintf(h, "m=%d|", m)
+	fmt.Fprintf(h, "m=%x|", meta)
 	var nums []int
 	for f := range files {
 		nums = append(nums, int(f))
@@ -738,12 +752,9 @@ type imgCase struct {
 }
 
 type imgCtx struct {
-	cfg   imgConfig
-	base  *baseline
-	metas map[int]metaDir
+	cfg  imgConfig
+	base *baseline
 }
-
-var imgSeq int64
 
 // ffldb.openDB does not close the leveldb handle when reconcileDB fails, so every
 // image whose database.Open fails leaks file descriptors and two 4 MiB memdbs.
@@ -761,21 +772,15 @@ func (ic *imgCtx) check(rc *recording, cc imgCase) (string, string) {
 		drop[i] = true
 	}
 	files := ds.image(drop, cc.Torn)
-	md, ok := ic.metas[ds.m]
+	md, ok := rc.snaps[ds.m]
 	if !ok {
-		return "harness", fmt.Sprintf("no metadata for commit %d", ds.m)
+		return "harness", fmt.Sprintf("no copy of metadata state #%d", ds.m)
 	}
-	dir := fmt.Sprintf("%s/verif-%d-img%d", lab.ShmRoot(), os.Getpid(), atomic.AddInt64(&imgSeq, 1))
+	dir := newScratch("img")
 	os.RemoveAll(dir)
 	defer os.RemoveAll(dir)
-	mdir := filepath.Join(dir, ffldb.VerifMetadataDirName)
-	if err := os.MkdirAll(mdir, 0o700); err != nil {
+	if err := md.writeTo(filepath.Join(dir, ffldb.VerifMetadataDirName)); err != nil {
 		return "harness", err.Error()
-	}
-	for name, b := range md {
-		if err := os.WriteFile(filepath.Join(mdir, name), b, 0o600); err != nil {
-			return "harness", err.Error()
-		}
 	}
 	for f, b := range files {
 		if err := os.WriteFile(filepath.Join(dir, ffldb.VerifBlockFileName(f)), b, 0o600); err != nil {
@@ -813,7 +818,7 @@ func (ic *imgCtx) check(rc *recording, cc imgCase) (string, string) {
 			return db
 		}})
 	}()
-	where := fmt.Sprintf("leveldb holds commits <= %d of %d, %d db.Update calls had returned", ds.m, rc.commits, ds.done)
+	where := fmt.Sprintf("leveldb directory = observed state LDB#%d (seen when %d of %d db.Update calls had been started), commits <= %d had been flushed, %d db.Update calls had returned", ds.m, ds.mUpto, rc.commits, ds.jmin, ds.done)
 	if panicked != "" {
 		return "open-panic", fmt.Sprintf("opening the crash image panicked: %s (%s)", panicked, where)
 	}
@@ -828,15 +833,23 @@ func (ic *imgCtx) check(rc *recording, cc imgCase) (string, string) {
 		return "chain-init-failed", fmt.Sprintf("blockchain.New on the crash image failed: %v (%s)", oerr, where)
 	}
 	r := &run{wl: wl, cache: cache, c: ch}
+	// tips made active by any db.Update that had returned before the crash, or
+	// by one whose commit is already in the observed leveldb state (a commit
+	// that reached leveldb makes its tip the active one, as in part 1)
+	bound := ds.done
+	if ds.mUpto > bound {
+		bound = ds.mUpto
+	}
 	allowed := map[chainhash.Hash]bool{}
 	for h, c := range rc.firstActive {
-		if c <= ds.done {
+		if c <= bound {
 			allowed[h] = true
 		}
 	}
+	// blocks acknowledged before the last commit that was promised durable
 	delivered := make([]bool, len(wl.order))
 	for i, c := range rc.retCommit {
-		delivered[i] = c <= ds.m
+		delivered[i] = c <= ds.jmin
 	}
 	var what string
 	func() {
@@ -983,7 +996,7 @@ func prepareImages(r *ev.Run, cfg imgConfig, regimes []flushRegime, st *imgStats
 		}
 		t0 = time.Now()
 	}
-	ic := &imgCtx{cfg: cfg, base: base, metas: map[int]metaDir{}}
+	ic := &imgCtx{cfg: cfg, base: base}
 	recs := make([]*recording, len(regimes))
 	probs := make([]string, len(regimes))
 	ev.Par(len(regimes), runtime.NumCPU(), func(i int) {
@@ -1019,7 +1032,7 @@ func prepareImages(r *ev.Run, cfg imgConfig, regimes []flushRegime, st *imgStats
 	// enumerate
 	var jobs []imgJob
 	seen := map[[32]byte]bool{}
-	need := map[int]bool{}
+	need := map[[32]byte]bool{}
 	for ri, rc := range recs {
 		st.LogEvents[rc.regime.String()] = len(rc.log)
 		capBits := capFor(rc.regime, cfg.long)
@@ -1029,15 +1042,17 @@ func prepareImages(r *ev.Run, cfg imgConfig, regimes []flushRegime, st *imgStats
 				drop[i] = true
 			}
 			st.Enumerated++
-			h := imageHash(ds.m, ds.image(drop, j.torn))
+			h := imageHash(rc.hashes[ds.m], ds.image(drop, j.torn))
 			if seen[h] {
 				return
 			}
 			seen[h] = true
-			need[ds.m] = true
+			need[rc.hashes[ds.m]] = true
 			jobs = append(jobs, j)
 		}
-		for p := 0; p <= len(rc.log); p++ {
+		// prefix 0 is "database.Create has not returned"; every other prefix
+		// starts with LDB#0, the freshly created database
+		for p := 1; p <= len(rc.log); p++ {
 			ds := stateAt(rc.log, p)
 			n := len(ds.pending)
 			if n > st.MaxUnsynced {
@@ -1081,25 +1096,7 @@ func prepareImages(r *ev.Run, cfg imgConfig, regimes []flushRegime, st *imgStats
 	}
 	st.Distinct = len(jobs)
 	lap("enumerate")
-	// leveldb states
-	var ms []int
-	for m := range need {
-		ms = append(ms, m)
-	}
-	sort.Ints(ms)
-	st.MetaStates = len(ms)
-	mds := make([]metaDir, len(ms))
-	errs := make([]error, len(ms))
-	ev.Par(len(ms), runtime.NumCPU(), func(i int) {
-		mds[i], errs[i] = cfg.metadataFor(ms[i], recs[0].commits)
-	})
-	for i, e := range errs {
-		if e != nil {
-			r.Broken("part 2: %s: leveldb state of commit %d: %v", cfg, ms[i], e)
-		}
-		ic.metas[ms[i]] = mds[i]
-	}
-	lap(fmt.Sprintf("metadata(%d)", len(ms)))
+	st.MetaStates = len(need)
 	return ic, recs, jobs
 }
 
@@ -1118,7 +1115,8 @@ func cleanupScratch() {
 
 // phaseImages is the second phase of the check; returns false if it was cut short.
 func phaseImages(r *ev.Run, wls []*workload, long bool) bool {
-	r.Assume("part 2: goleveldb is atomic and durable per write batch (a leveldb commit is either completely there after the crash or not at all, and stays); the leveldb directory of an image is the state after the newest ffldb flush inside the log prefix")
+	r.Assume("part 2: goleveldb is atomic and durable per write batch (a leveldb commit is either completely there after the crash or not at all, and stays); the leveldb directory of an image is the newest OBSERVED state of the directory inside the log prefix (a verified point-in-time copy taken by the recorder before the next block-file event / step end was logged; everything runs in one goroutine)")
+	r.Assume("part 2, blind spot of the observation: two leveldb commits with no block-file event and no db.Update return between them are seen as one change (the intermediate state is a commit prefix with the same block files, i.e. a part-1 state)")
 	r.Assume("part 2: directory operations (file creation, deletion) and Truncate are durable at once; file data becomes durable only through a later Sync of the same file; only bytes not covered by such a Sync may be lost or torn (torn = first half of the last write)")
 	r.Assume("part 2: database.Create itself is not interrupted")
 	if pf := os.Getenv("C04_CPUPROF"); pf != "" { // development aid
@@ -1212,12 +1210,12 @@ func phaseImages(r *ev.Run, wls []*workload, long bool) bool {
 	if !complete {
 		r.Cap("part 2: time box hit; see crash_images for the configurations that were completed")
 	}
-	if capped > 0 {
-		r.Cap(fmt.Sprintf("part 2: at %d log prefixes more unsynced writes were outstanding than the subset cap; there the newest cap writes were varied exhaustively, older ones kept, plus the all-lost image (caps: every/periodic regimes %d, never regime %d)", capped, capFor(flushRegime{Period: 1}, long), capFor(flushRegime{}, long)))
-	}
 	r.Set("crash_images", map[string]interface{}{
 		"flush_regimes":            names,
 		"subset_cap_bits":          map[string]int{"every_and_periodic": capFor(flushRegime{Period: 1}, long), "never": capFor(flushRegime{}, long)},
+		"subset_bound":             "per log prefix: every subset of the newest subset_cap_bits unsynced writes lost (older unsynced writes kept), plus the image with ALL unsynced writes lost; each additionally with the last write torn",
+		"prefixes_where_the_bound_cut_subsets": capped,
+		"leveldb_states":           "observed (verified copies of the live directory), not inferred",
 		"torn_variants":            "last write cut at half length",
 		"distinct_images_opened":   total,
 		"per_configuration":        stats,
@@ -1283,15 +1281,10 @@ func replayImage(r *ev.Run, cc imgCase) {
 	if p != "" {
 		r.Broken("replay: %s", p)
 	}
-	if cc.Prefix > len(rc.log) {
+	if cc.Prefix < 1 || cc.Prefix > len(rc.log) {
 		r.Broken("replay: log has only %d events", len(rc.log))
 	}
-	ds := stateAt(rc.log, cc.Prefix)
-	md, err := cfg.metadataFor(ds.m, rc.commits)
-	if err != nil {
-		r.Broken("replay: %v", err)
-	}
-	ic := &imgCtx{cfg: cfg, base: base, metas: map[int]metaDir{ds.m: md}}
+	ic := &imgCtx{cfg: cfg, base: base}
 	class, what := ic.check(rc, cc)
 	r.Eval(1)
 	if class == "harness" {
